@@ -983,7 +983,7 @@ func concurrentFirstUse(rep *Report, cl *lean.Client, r *rng.R) int {
 		}
 	}
 	n := 0
-	for _, e := range zoo.Entries {
+	for _, e := range append(append([]zoo.Entry{}, zoo.Entries...), zoo.WideOnly...) {
 		if e.Bad || e.Kind != "struct" || len(e.Tags) < 3 || inPair[e.Type] {
 			continue
 		}
